@@ -246,5 +246,7 @@ def run(check, ctx):
     check.floor("SEG-c", 5)
     from . import c_keccak
     c_keccak.keccak_tables(check, ctx, rule="SEG-c", groups=("sponge",))
+    from . import c_md
+    c_md.md_tables(check, ctx, rule="SEG-c", groups=("pad",))
     check.undecided.append("equality of results for every partition beyond the representative partitions; "
                            "buffer-protocol corner cases inside ctypes; OCB/GCM/Poly1305 native loops")
